@@ -247,6 +247,12 @@ where
 /-- `EqualValueTo` -/
 def equalValueTo (a c : Val) : Bool :=
   if a.isInteger && c.isInteger then a.toInt == c.toInt
+  -- floats, strings and booleans by value as well, whatever their Go type (fix f1900e3)
+  else if a.isFloat && c.isFloat then a.toFloat == c.toFloat
+  else if a.isString && c.isString then
+    (match a.reflected, c.reflected with | .str x, .str y => x == y | _, _ => false)
+  else if a.isBool && c.isBool then
+    (match a.reflected, c.reflected with | .bool x, .bool y => x == y | _, _ => false)
   else if a.kind == .invalid || c.kind == .invalid then false
   else comparableDeep 16 a && comparableDeep 16 c && goEq 16 a c
 
